@@ -71,7 +71,7 @@ pub fn payload_of_class(rng: &mut Rng, l: usize, class: u64) -> Vec<u8> {
     p
 }
 
-pub const SPECIAL_CRCS: &[u32] = &[0x000000, 0x000001, 0xFFFFFF, 0x800000, 0x7FFFFF, 0xD30000, 0x00D300, 0x0000D3, 0xD3D3D3, 0x010000, 0x000100, 0xAAAAAA, 0x555555];
+pub const SPECIAL_CRCS: &[u32] = &[0x000000, 0x000001, 0xFFFFFF, 0x800000, 0x7FFFFF, 0xD30000, 0x00D300, 0x0000D3, 0xD3D3D3, 0x010000, 0x000100, 0xAAAAAA, 0x555555, 0x000D0A, 0x410D0A, 0x0D0A00, 0x00000A, 0x20200A, 0x202020, 0x00FFFF, 0xFFFF00];
 
 /// a valid frame of payload length l (>= 3) whose CRC-24Q is exactly `target` (the last three payload bytes are solved for)
 pub fn frame_with_crc(rng: &mut Rng, l: usize, reserved: u8, target: u32) -> Vec<u8> {
